@@ -1,4 +1,4 @@
-import CardVerif.Spec.BettingRules
+import CardModel.Spec.BettingRules
 /-!
 # Wager legality (C04), stated over the state and the round's history
 
